@@ -1,5 +1,6 @@
 //! pv - runtime-monitoring harness for qoollo/pearl (see /verif/DESIGN.md)
 pub mod checks;
+pub mod clock;
 pub mod drive;
 pub mod evidence;
 pub mod model;
